@@ -379,11 +379,53 @@ def classify(results):
     return fails, unwind, wit, real
 
 
+def run_twin(ob, scratch, box, keep_out=False):
+    """Witness twin of an obligation: every WITNESS point must be FAILED (= reachable)."""
+    got = GATE.acquire(ob.mem_gb)
+    try:
+        gbw, o = compile_goto(ob, scratch, True)
+        if gbw is None:
+            box.update(status="build-failed", note=o[-800:])
+            return
+        outw = os.path.join(scratch, ob.name + "-w.json")
+        rc, err, secs, rss = run(cbmc_cmd(ob, gbw), ob.timeout, ob.mem_gb, cwd=scratch, stdout_path=outw)
+        box.update(secs=round(secs, 1), rss=rss, queries=1)
+        if rc == "timeout":
+            box.update(status="timeout", note="timed out after %ds" % ob.timeout)
+            return
+        status, results, msgs = parse_cbmc(outw)
+        if status != "done":
+            box.update(status="error", note="cbmc rc=%s %s" % (rc, err[-300:]))
+            return
+        _, _, wit, _ = classify(results)
+        if ob.witnesses is not None:
+            wit = [w for w in wit if w["description"][8:] in ob.witnesses]
+        reach = [w["description"][8:] for w in wit if w.get("status") == "FAILURE"]
+        unreach = [w["description"][8:] for w in wit if w.get("status") != "FAILURE"]
+        if ob.witnesses is not None:
+            unreach += [n for n in ob.witnesses if n not in reach and n not in unreach]
+        box.update(status="ok", reach=reach, unreach=unreach, nwit=len(wit))
+    except Exception as e:
+        box.update(status="error", note="driver exception %r" % e)
+    finally:
+        GATE.release(got)
+        if not keep_out:
+            for suf in ("-w.json", "-w.gb"):
+                try:
+                    os.unlink(os.path.join(scratch, ob.name + suf))
+                except OSError:
+                    pass
+
+
 def run_obligation(ob, scratch, keep_out=False):
     rec = {"obligation": ob.name, "harness": ob.harness, "entry": ob.entry, "backend": ob.backend,
            "defines": ob.defines, "cbmc_args": ob.cbmc, "bounds": ob.bounds, "ub_checks": ob.ub,
            "functions_encoded": ob.functions, "verdict": None, "solver_s": 0.0, "peak_rss_kb": 0,
            "queries": 0, "witnesses_reachable": [], "notes": []}
+    twin_box = {}
+    twin_thread = threading.Thread(target=run_twin, args=(ob, scratch, twin_box, keep_out))
+    if ob.witness:
+        twin_thread.start()
     got = GATE.acquire(ob.mem_gb)
     try:
         gb, o = compile_goto(ob, scratch, False)
@@ -435,38 +477,26 @@ def run_obligation(ob, scratch, keep_out=False):
                                 "; ".join(sorted({u.get("property", "") for u in unwind}))[:300])
             return rec
         rec["verdict"] = "holds"
-        # witness twin
+        # witness twin (started concurrently with the main query, joined here)
         if ob.witness:
-            gbw, o = compile_goto(ob, scratch, True)
-            if gbw is None:
+            twin_thread.join()
+            tw = twin_box
+            rec["solver_s"] += tw.get("secs", 0)
+            rec["peak_rss_kb"] = max(rec["peak_rss_kb"], tw.get("rss", 0))
+            rec["queries"] += tw.get("queries", 0)
+            if tw.get("status") == "build-failed":
                 rec["verdict"] = "machinery-error"
-                rec["notes"].append("witness build failed: " + o[-800:])
+                rec["notes"].append("witness build failed: " + tw.get("note", ""))
                 return rec
-            outw = os.path.join(scratch, ob.name + "-w.json")
-            rc, err, secs, rss = run(cbmc_cmd(ob, gbw), ob.timeout, ob.mem_gb, cwd=scratch, stdout_path=outw)
-            rec["solver_s"] += round(secs, 1)
-            rec["peak_rss_kb"] = max(rec["peak_rss_kb"], rss)
-            rec["queries"] += 1
-            if rc == "timeout":
-                rec["notes"].append("witness twin timed out; reachability not confirmed")
+            if tw.get("status") != "ok":
+                rec["notes"].append("witness twin: " + tw.get("note", "no result") + "; reachability not confirmed")
                 rec["verdict"] = "inconclusive"
                 return rec
-            status, results, msgs = parse_cbmc(outw)
-            if status != "done":
-                rec["notes"].append("witness twin: cbmc rc=%s %s" % (rc, err[-300:]))
-                rec["verdict"] = "inconclusive"
-                return rec
-            _, _, wit, _ = classify(results)
-            if ob.witnesses is not None:
-                wit = [w for w in wit if w["description"][8:] in ob.witnesses]
-            reach = [w["description"][8:] for w in wit if w.get("status") == "FAILURE"]
-            unreach = [w["description"][8:] for w in wit if w.get("status") != "FAILURE"]
-            if ob.witnesses is not None:
-                unreach += [n for n in ob.witnesses if n not in reach and n not in unreach]
+            reach, unreach, nwit = tw["reach"], tw["unreach"], tw["nwit"]
             rec["witnesses_reachable"] = sorted(set(reach))
             if unreach and ob.witness_mode == "any" and reach:
                 rec["notes"].append("witness points outside this case-split class: %d" % len(set(unreach)))
-            elif unreach or not wit:
+            elif unreach or not nwit:
                 rec["verdict"] = "vacuous"
                 rec["notes"].append("witness point(s) not reachable: %s" % sorted(set(unreach)))
         else:
@@ -474,8 +504,10 @@ def run_obligation(ob, scratch, keep_out=False):
         return rec
     finally:
         GATE.release(got)
+        if ob.witness and twin_thread.is_alive():
+            twin_thread.join()
         if not keep_out:
-            for suf in (".json", "-w.json", ".gb", "-w.gb"):
+            for suf in (".json", ".gb"):
                 try:
                     os.unlink(os.path.join(scratch, ob.name + suf))
                 except OSError:
